@@ -5,9 +5,7 @@
 // goroutines (alternating the two operations, each running its operation twice) are released from
 // a start barrier. Because the library contains no synchronisation, conflicting accesses of two
 // workers are unordered by happens-before in every schedule, so the detector's verdict does not
-// depend on the interleaving that happens to run. Prints one line per pair; exit status 0.
-// Race reports go to stderr (GORACE=halt_on_error=0) and are attributed by the parent through
-// the "PAIR a b" markers.
+// depend on the interleaving that happens to run. One pair per process (cold start every time).
 package main
 
 import (
@@ -20,48 +18,46 @@ import (
 )
 
 func main() {
-	ops.Prepare()
-	all := ops.All()
-	in := bufio.NewScanner(os.Stdin)
-	for in.Scan() {
-		var a, b, k, reps int
-		if n, _ := fmt.Sscanf(in.Text(), "%d %d %d %d", &a, &b, &k, &reps); n != 4 {
-			continue
-		}
-		fmt.Fprintf(os.Stderr, "PAIR %d %d\n", a, b)
-		mismatch := ""
-		wantA, wantB := all[a].Run(), all[b].Run()
-		for r := 0; r < reps; r++ {
-			var wg sync.WaitGroup
-			start := make(chan struct{})
-			res := make([]string, k)
-			for g := 0; g < k; g++ {
-				wg.Add(1)
-				go func(g int) {
-					defer wg.Done()
-					<-start
-					op := all[a]
-					if g%2 == 1 {
-						op = all[b]
-					}
-					res[g] = op.Run()
-					if s := op.Run(); s != res[g] {
-						res[g] = "UNSTABLE " + res[g] + " / " + s
-					}
-				}(g)
-			}
-			close(start)
-			wg.Wait()
-			for g := 0; g < k; g++ {
-				want := wantA
-				if g%2 == 1 {
-					want = wantB
-				}
-				if res[g] != want && mismatch == "" {
-					mismatch = fmt.Sprintf("goroutine %d got %.200q want %.200q", g, res[g], want)
-				}
-			}
-		}
-		fmt.Printf("DONE %d %d %q\n", a, b, mismatch)
+	// one request per process: "a b k reps" on the command line. No warm-up of any kind happens
+	// before the goroutines are released (lazily built shared state must be built concurrently);
+	// the results are printed and compared with the solo results by the parent.
+	if len(os.Args) != 5 {
+		os.Exit(3)
 	}
+	var a, b, k, reps int
+	fmt.Sscan(os.Args[1], &a)
+	fmt.Sscan(os.Args[2], &b)
+	fmt.Sscan(os.Args[3], &k)
+	fmt.Sscan(os.Args[4], &reps)
+	all := ops.All()
+	ops.PrepareFor(all, []int{a, b})
+	out := bufio.NewWriter(os.Stdout)
+	defer out.Flush()
+	for r := 0; r < reps; r++ {
+		var wg sync.WaitGroup
+		start := make(chan struct{})
+		res := make([][2]string, k)
+		for g := 0; g < k; g++ {
+			wg.Add(1)
+			go func(g int) {
+				defer wg.Done()
+				<-start
+				op := all[a]
+				if g%2 == 1 {
+					op = all[b]
+				}
+				res[g][0] = op.Run()
+				res[g][1] = op.Run()
+			}(g)
+		}
+		close(start)
+		wg.Wait()
+		for g := 0; g < k; g++ {
+			fmt.Fprintf(out, "RES %d %q %q\n", g%2, res[g][0], res[g][1])
+		}
+	}
+	// sequential epilogue: a poisoned cache shows here
+	fmt.Fprintf(out, "RES 0 %q %q\n", all[a].Run(), all[a].Run())
+	fmt.Fprintf(out, "RES 1 %q %q\n", all[b].Run(), all[b].Run())
+	fmt.Fprintf(out, "DONE\n")
 }
